@@ -67,6 +67,13 @@ func vDescOf(t []string, p string) (*AppInfo, bool) {
 
 // vViaWire sends the description as an App message through processBinary and returns what the handler received.
 func vViaWire(info *AppInfo) *AppInfo {
+	spy := &vKeySpy{}
+	processBinary(vAppMsg(info), spy)
+	return spy.got
+}
+
+// vAppMsg: the description as the agent's App message
+func vAppMsg(info *AppInfo) []byte {
 	buf := flatbuffers.NewBuilder(0)
 	pol, _ := json.Marshal(info.SupportedSecurityPolicies.Policies)
 	if info.SupportedSecurityPolicies.Policies == nil {
@@ -111,9 +118,7 @@ func vViaWire(info *AppInfo) *AppInfo {
 	protocol.MessageAddDataType(buf, protocol.MessageBodyApp)
 	protocol.MessageAddData(buf, app)
 	buf.Finish(protocol.MessageEnd(buf))
-	spy := &vKeySpy{}
-	processBinary(buf.Bytes[buf.Head():], spy)
-	return spy.got
+	return buf.Bytes[buf.Head():]
 }
 
 func vB(b bool) int {
